@@ -743,6 +743,9 @@ def metamorphic(ctx, rng):
     n = 6 if quick else 30
     jobs = []
     vs = variants()
+    for dim, mesh in ((2, [4, 12, 2]), (3, [3, 8, 3])):
+        jobs.append(dict(pred="solved_ring", signature="c05:solved-ring", model="PIA", variant="base", cares=True, tot=0.0,
+                         dim=dim, mesh=mesh, ro=10.0, t=1.5, h=6.0, p=float(rng.uniform(20.0, 60.0))))
     for name, _, indep in MODELS:
         for i in range(n):
             variant = vs[i % len(vs)]
@@ -919,6 +922,45 @@ def pred_uniaxial_gradient(p):
     return []
 
 
+def pred_solved_ring(p):
+    """a tube solved by the REAL structural stage (2-D or 3-D, elastic SiC, internal pressure, uniform temperature:
+    an axisymmetric problem): the element log-reliabilities, taken in the order of Tube.element_volumes() (radial
+    layer outermost), are equal round every ring, and log R_e / V_e is a function of the ring only"""
+    from srlife import receiver, structural, spring, library
+    mdl = _mk(p)
+    nr, nt, nz = p["mesh"]
+    tube = receiver.Tube(p["ro"], p["t"], p["h"], nr, nt, nz)
+    if p["dim"] == 2:
+        tube.make_2D(p["h"] / 2)
+    times = np.array([0.0, 1.0])
+    tube.set_times(times)
+    tube.set_pressure_bc(receiver.PressureBC(times, np.array([0.0, p["p"]])))
+    tube.add_results("temperature", np.full((2,) + tube.dim[:tube.ndim], 800.0))
+    dmat = library.load_deformation("SiC", "elastic_model").get_neml_model()
+    sp = spring.TubeSpring(tube, structural.PythonTubeSolver(verbose=False), dmat)
+    sp.force_and_stiffness(1, 0.0)
+    sp.update_state(1)
+    try:
+        series, field = mdl.tube_log_reliability(tube, material(p["variant"]), FakeReceiver(), 0.0)
+    except Exception as e:
+        return ["tube_log_reliability on a solved %dD tube raised %s: %s" % (p["dim"], type(e).__name__, e)]
+    vols = np.asarray(tube.element_volumes(), dtype=float)
+    e = np.asarray(field, dtype=float)
+    e = e[0, :, 0] if e.ndim == 3 else e.reshape(-1)      # (ntime, nelem, 2): the element values, repeated
+    if e.shape != vols.shape:
+        return ["solved %dD tube: %d element log-reliabilities for %d element volumes" % (p["dim"], e.size, vols.size)]
+    per = (e / vols).reshape(nr - 1, -1)           # element_volumes order: radial layer i outermost
+    spread = float(np.max(np.max(per, axis=1) - np.min(per, axis=1)))
+    scale = float(np.max(np.abs(per))) + 1e-300
+    if spread > 1e-6 * scale:
+        worst = int(np.argmax(np.max(per, axis=1) - np.min(per, axis=1)))
+        return ["solved %dD tube (nr=%d nt=%d nz=%d, p=%g): log R_e / V_e varies round radial layer %d by %.3g relative (values %s): the "
+                "element log-reliabilities do not belong to the elements whose volumes they were multiplied with (%s)" % (
+                    p["dim"], nr, nt, nz, p["p"], worst, spread / scale, ["%.4g" % x for x in per[worst][:6]], MCLASS[p["model"]])]
+    return []
+
+
+PREDS["solved_ring"] = pred_solved_ring
 PREDS["uniaxial_gradient"] = pred_uniaxial_gradient
 PREDS["repeated"] = pred_repeated
 PREDS["uniaxial_any"] = pred_uniaxial_any
